@@ -175,7 +175,7 @@ def check(case, ctx):
             label = "%s on axis %s" % (label, codec.short(lab, 80))
             res, exc = ctx.call(label, fn, operands=(a,), meta='carry')
             if exp_exc is not None:
-                common.expect(ctx, ID, "slice-" + blk, label, res, exc, exp_exc=IndexError)
+                common.expect(ctx, ID, "slice-" + blk, label, res, exc, exp_exc=(IndexError, KeyError, ValueError))
             else:
                 common.expect(ctx, ID, "slice-" + blk, label, res, exc, exp=exp)
         if sl == slice(None):
@@ -202,7 +202,7 @@ def check(case, ctx):
             label = "%s with t=%s labels=%s" % (label, codec.short(t, 200), codec.short(m.labels, 200))
             res, exc = ctx.call(label, fn, operands=(a,), meta='carry')
             if exp_exc is not None:
-                common.expect(ctx, ID, "slice-nd", label, res, exc, exp_exc=IndexError)
+                common.expect(ctx, ID, "slice-nd", label, res, exc, exp_exc=(IndexError, KeyError, ValueError))
             else:
                 common.expect(ctx, ID, "slice-nd", label, res, exc, exp=exp)
         return ("nd", m.ndim, tuple(zip(sp["kinds"], case["ikinds"])), case["form"],
